@@ -1088,9 +1088,9 @@ impl super::MainState {
                                 user.modes.oper = false;
                                 if !user.modes.local_oper {
                                     state.operators_count -= 1;
-                                    // put to applied modes
-                                    unset_modes_string.push('o');
                                 }
+                                // put to applied modes
+                                unset_modes_string.push('o');
                             }
                         }
                         'O' => {
@@ -1111,13 +1111,19 @@ impl super::MainState {
                                         .await?;
                                     }
                                 }
-                            } else if user.modes.oper {
-                                user.modes.oper = false;
+                            } else if user.modes.local_oper {
+                                user.modes.local_oper = false;
                                 if !user.modes.oper {
                                     state.operators_count -= 1;
-                                    // put to applied modes
-                                    unset_modes_string.push('O');
                                 }
+                                // put to applied modes
+                                unset_modes_string.push('O');
+                            } else if user.modes.oper {
+                                // operator is local operator too
+                                user.modes.oper = false;
+                                state.operators_count -= 1;
+                                // put to applied modes
+                                unset_modes_string.push('O');
                             }
                         }
                         _ => (),
